@@ -89,6 +89,9 @@ ismp!(i16, i16, "i16", 16, 0);
 ismp!(u8, i8, "u8", 8, 128);
 ismp!(i8, i8, "i8", 8, 0);
 ismp!(u16, i16, "u16", 16, 32768);
+ismp!(i32, i32, "i32", 32, 0);
+ismp!(u32, i32, "u32", 32, 2147483648);
+ismp!(i64, i64, "i64", 64, 0);
 
 fn rect_int_frames<S: ISmp, const C: usize>(st: &mut Stream, vals: &[i128]) where S::Signed: Copy, [S; C]: Frame<Sample = S, Signed = [S::Signed; C]> {
     for kind in [Kind::Fw, Kind::Ph, Kind::Nh] {
@@ -543,6 +546,97 @@ where F: Frame + 'static, F::Sample: Flt, <F::Signed as Frame>::Sample: Flt, <F:
     }
 }
 
+// ---------------------------------------------------------------------------------------------
+// integer frames through the peak detectors ("for every sample format"): exact oracles in i128, no float model
+
+/// the f32 gain a detector uses for a time constant, read off the float detector: with attack 0, after 1.0 then
+/// 0.0 the second output is exactly `0 + (1 - 0) * release_gain`
+fn gain_of(frames: f32) -> f64 {
+    let mut d = Detector::<f32, _>::peak(0.0, frames);
+    d.next(1.0);
+    d.next(0.0) as f64
+}
+
+fn int_amp(rng: &mut Rng, bits: u32, lim: i128) -> i128 {
+    let v = match rng.below(6) {
+        0 => *rng.pick(&[0i128, 1, -1, lim, -lim, lim - 1, 2, -2]),
+        1 | 2 => { let k = rng.below(bits as u64 - 1) as u32; let b = 1i128 << k; b + rng.range_i128(-1, 1) * if rng.chance(1, 2) { 1 } else { -1 } * 1 }
+        3 => -((1i128 << rng.below(bits as u64 - 1) as u32) + rng.range_i128(-1, 1)),
+        _ => rng.range_i128(-lim, lim),
+    };
+    v.max(-lim).min(lim)
+}
+
+/// `exact`: every value of the format is exactly representable in the format's float type (then `l - d` and the
+/// product's rounding cannot leave the interval); `fl_u`: unit round-off of that float type
+fn env_int_case<F>(st: &mut Stream, rng: &mut Rng, exact: bool, fl_u: f64)
+where F: Frame + 'static, F::Sample: ISmp, <F::Sample as Sample>::Signed: Copy,
+      F::Signed: Frame<Sample = <F::Sample as Sample>::Signed> {
+    let bits = <F::Sample as ISmp>::BITS; let eq = <F::Sample as ISmp>::EQ;
+    let half: i128 = 1 << (bits - 1);
+    // -amp representable; for the formats wider than their float's mantissa stay a factor 2 inside the range (the
+    // rounded difference may exceed the exact one by a few hundred LSB: no integer overflow in the final addition)
+    let lim = if exact { half - 1 } else { (half >> 1) - 1 };
+    let times = [0.0f32, 0.0, 1.0, 3.5, 1000.0, 1e30, -0.0, 0.25];
+    let (a, r) = (*rng.pick(&times), *rng.pick(&times));
+    let kind = *rng.pick(&[Kind::Fw, Kind::Ph, Kind::Nh]);
+    let len = 4 + rng.below(12) as usize;
+    let mut frames: Vec<Vec<i128>> = Vec::new();
+    for i in 0..len {
+        if i > 0 && rng.chance(1, 3) { let prev = frames[i - 1].clone(); frames.push(prev); continue; }
+        frames.push((0..F::CHANNELS).map(|_| int_amp(rng, bits, lim)).collect());
+    }
+    env_int_eval::<F>(st, kind, a, r, &frames, exact, fl_u);
+}
+
+/// listed in /verif/known_findings.json: for an integer format wider than its float type's mantissa the difference
+/// (previous - detected) is rounded to the float type before it is scaled, so with a gain that rounds to (nearly) 1 the
+/// output overshoots the previous envelope by up to |previous - detected| * 2.5u
+const KNOWN_WIDE: &str = "C19-wide-int-difference-rounding";
+
+fn env_int_eval<F>(st: &mut Stream, kind: Kind, a: f32, r: f32, frames: &[Vec<i128>], exact: bool, fl_u: f64)
+where F: Frame + 'static, F::Sample: ISmp, <F::Sample as Sample>::Signed: Copy,
+      F::Signed: Frame<Sample = <F::Sample as Sample>::Signed> {
+    let eq = <F::Sample as ISmp>::EQ;
+    let (ga, gr) = (gain_of(a), gain_of(r));
+    let req = format!("envelope over {} frames x{} ({}), attack {} release {} frames, signed amplitudes {:?}", <F::Sample as ISmp>::NAME, F::CHANNELS, kind.name(), a, r, frames);
+    mark(0, &req);
+    let mk = |fr: &Vec<i128>| F::from_fn(|c| <F::Sample as ISmp>::of(fr[c] + eq));
+    let outs: Option<Vec<Vec<i128>>> = guarded(|| match kind {
+        Kind::Fw => { let mut det = Detector::<F, _>::peak(a, r); frames.iter().map(|fr| det.next(mk(fr)).channels().map(|x| <F::Sample as ISmp>::sval(x)).collect()).collect() }
+        Kind::Ph => { let mut det = Detector::<F, _>::peak_positive_half_wave(a, r); frames.iter().map(|fr| det.next(mk(fr)).channels().map(|x| x.val() - eq).collect()).collect() }
+        Kind::Nh => { let mut det = Detector::<F, _>::peak_negative_half_wave(a, r); frames.iter().map(|fr| det.next(mk(fr)).channels().map(|x| x.val() - eq).collect()).collect() }
+    });
+    let outs = match outs { Some(o) => o, None => { st.oracle_fail("the envelope detector panicked on in-range integer frames (negated amplitudes representable)", &req, "no panic", "panic"); return; } };
+    let mut l: Vec<i128> = vec![0; F::CHANNELS];
+    for (i, fr) in frames.iter().enumerate() {
+        for c in 0..F::CHANNELS {
+            let d = match kind { Kind::Fw => fr[c].abs(), Kind::Ph => fr[c].max(0), Kind::Nh => fr[c].min(0) };
+            let (lo, o) = (l[c], outs[i][c]);
+            let (g, t) = if lo < d { (ga, a) } else { (gr, r) };
+            let at = format!("frame {} channel {}: previous envelope {}, detected {}, gain {:e}", i, c, lo, d, g);
+            if t == 0.0 {
+                if o == d { st.oracle_ok(1); } else { st.oracle_fail("time constant 0: the envelope output is not the detected value", &format!("{} / {}", req, at), &d.to_string(), &o.to_string()); return; }
+            }
+            if lo == d {
+                if o == d { st.oracle_ok(1); st.count("integer envelope: previous == detected"); } else { st.oracle_fail("previous envelope equals the detected value, the output differs from both", &format!("{} / {}", req, at), &d.to_string(), &o.to_string()); return; }
+            }
+            if o >= lo.min(d) && o <= lo.max(d) { st.oracle_ok(1); } else {
+                let beyond_prev = (lo > d && o > lo) || (lo < d && o < lo);
+                let excess = if o > lo.max(d) { o - lo.max(d) } else { lo.min(d) - o };
+                if !exact && beyond_prev && excess as f64 <= (lo - d).abs() as f64 * 2.5 * fl_u + 1.0 {
+                    st.known_hit(KNOWN_WIDE, &format!("{} / {}", req, at), &format!("output {} is {} beyond the previous envelope", o, excess));
+                } else { st.oracle_fail("integer envelope output outside [previous envelope, detected value]", &format!("{} / {}", req, at), &format!("within [{}, {}]", lo.min(d), lo.max(d)), &o.to_string()); return; }
+            }
+            let e = d as f64 + g * (lo - d) as f64;
+            let tol = 2.0 + ((lo - d).abs() as f64 + d.abs() as f64 + lo.abs() as f64) * 4.0 * fl_u;
+            if (o as f64 - e).abs() <= tol { st.oracle_ok(1); } else { st.oracle_fail("integer envelope output is not detected + gain x (previous - detected) (up to the rounding of one product and 2 LSB)", &format!("{} / {}", req, at), &format!("{} +- {}", e, tol), &o.to_string()); return; }
+            l[c] = o;
+        }
+    }
+    st.count(&format!("integer envelope histories: {}", <F::Sample as ISmp>::NAME));
+}
+
 fn run_env(a: &Args, sig: bool) {
     let name = if sig { "envsig" } else { "env" };
     let mut st = Stream::new(&a.out, name);
@@ -555,6 +649,21 @@ fn run_env(a: &Args, sig: bool) {
         env_case::<[f32; 2]>(&mut st, &mut tally, &mut rng, sig);
         env_case::<f64>(&mut st, &mut tally, &mut rng, sig);
         env_case::<[f64; 2]>(&mut st, &mut tally, &mut rng, sig);
+    }
+    if !sig {
+        let mut r2 = Rng::new(a.seed, "envint");
+        // the probe of the listed finding: i32 through f32, release gain exp(-1e-30) = 1.0f32
+        env_int_eval::<i32>(&mut st, Kind::Fw, 0.0, 1e30, &[vec![(1i128 << 30) + 65], vec![0]], false, 2f64.powi(-24));
+        for _ in 0..n {
+            env_int_case::<[i16; 2]>(&mut st, &mut r2, true, 2f64.powi(-24));
+            env_int_case::<u16>(&mut st, &mut r2, true, 2f64.powi(-24));
+            env_int_case::<[i8; 3]>(&mut st, &mut r2, true, 2f64.powi(-24));
+            env_int_case::<[u8; 1]>(&mut st, &mut r2, true, 2f64.powi(-24));
+            env_int_case::<[i32; 2]>(&mut st, &mut r2, false, 2f64.powi(-24));
+            env_int_case::<u32>(&mut st, &mut r2, false, 2f64.powi(-24));
+            env_int_case::<i64>(&mut st, &mut r2, false, 2f64.powi(-53));
+        }
+        st.note("integer frames ([i16;2], u16, [i8;3], [u8;1] exactly representable in f32; [i32;2], u32 via f32 and i64 via f64 are not) through the three peak detectors: output = detected at time 0, output = detected when previous = detected, output within [previous, detected] (exact formats), output = detected + gain x (previous - detected) within 2 LSB + 4u(|l-d|+|l|+|d|); the gain is read off the float detector. For the formats wider than their float's mantissa an output beyond the previous envelope by at most |l-d| 2.5u + 1 is the listed finding C19-wide-int-difference-rounding (anything else outside the interval is a violation); amplitudes stay within half the range.");
     }
     st.note(&format!("formula oracle: |out - (d + g (l - d))| <= 4u(|d| + |l - d|) + |l - d| * gtol + 4 * (smallest subnormal), g = exp(-1/frames) in f64, gtol = g (|1/frames| + 2) 2.4e-7 (f32 evaluation of the gain); largest observed deviation / tolerance = {:.4}", tally.max_ratio));
     st.note("betweenness is checked exactly (no tolerance) for every gain < 1 - 2^-20; where the f32 gain rounds to >= 1 - 2^-20 (times >= ~1e6) a tolerance of 4u*max(|l|,|d|) applies, counted in the histogram (between:one-ulp-tolerance)");
